@@ -977,8 +977,19 @@ func (p *Primary) maybeManageWALRetention() {
 
 	// Apply the retention policy using the existing WAL API
 	config := wal.WALRetentionConfig{
-		MaxAge:          time.Duration(p.retentionConfig.MaxAgeHours) * time.Hour,
-		MinSequenceKeep: minAcknowledgedSeq,
+		MaxAge: time.Duration(p.retentionConfig.MaxAgeHours) * time.Hour,
+	}
+
+	// Sequence-based retention is opt-in (RetentionConfig.MinSequenceKeep, off
+	// by default). What the currently connected replicas have acknowledged
+	// says nothing about a replica that is reconnecting, or about one that
+	// starts later: every replica fetches the log from its beginning, and the
+	// log files are also what the primary itself recovers from.
+	if p.retentionConfig.MinSequenceKeep > 0 {
+		config.MinSequenceKeep = minAcknowledgedSeq
+		if p.retentionConfig.MinSequenceKeep < config.MinSequenceKeep {
+			config.MinSequenceKeep = p.retentionConfig.MinSequenceKeep
+		}
 	}
 
 	filesDeleted, err := p.currentWAL().ManageRetention(config)
